@@ -18,15 +18,19 @@ from ..oracle import geometry as G
 from .. import cover
 
 RULE = ('four case groups, classes chosen round-robin from the case index: "stroh" = 9 stiffness classes (random SPD tensor '
-        'group-averaged over the class point group) x 9 m/n assignments (six axis-letter pairs, signed axes, oblique arrays/lists) '
+        'group-averaged over the class point group: cubic, hexagonal, tetragonal 6/7 constants, rhombohedral 6/7 constants, orthorhombic, '
+        'monoclinic, triclinic) x 10 m/n assignments (six axis-letter pairs, signed axes, oblique arrays, oblique lists, one letter + one array) '
         'x 5 Burgers classes (screw, edge, mixed, slip-plane-normal, general) x 4 orientation inputs (none, transform, '
-        'un-normalised axes, list) x 3 stiffness scales; "iso" = isotropic solver, 4 Poisson-ratio classes x 9 m/n x 4 in-plane '
-        'Burgers classes x 4 orientation inputs; "limit" = Stroh on C_iso + eta*mu*D_cubic for eta = 3e-2, 1e-2, 3e-3; '
-        '"miller" = line/plane Miller input in 8 box classes (hostile fixed pairs first, then random zone-law pairs, 3- and '
-        '4-index) for both solvers.  Each solution is probed at 40 off-line points (hostile polar angles incl. the axes and '
-        '0.03 rad from the cut, radii over 4 decades), at 20 radii on the cut and on 5 other rays, and on a 256-point circuit. '
-        'A case is non-trivial when the solver returned a solution whose Burgers vector is non-zero and all field monitors '
-        'were evaluated; distinct = distinct fingerprint of (stiffness, Burgers vector, transform, m, n).')
+        'un-normalised axes=, list) x stiffness magnitudes (1, 6e-3, 160; 1e-6 and 1e9 with refusal accepted) x length scales (1, 1e-10, 1e4); '
+        '"iso" = isotropic solver (direct and through the wrapper), 4 Poisson-ratio classes (typical, 0, negative, 0.45-0.495) x 10 m/n x 4 in-plane '
+        'Burgers classes x 4 orientation inputs x 3 length scales x 3 ways of stating the moduli; "limit" = Stroh on C_iso + eta*mu*D_cubic for '
+        'eta = 3e-2, 1e-2, 3e-3 and the wrapper at eta = 3e-5 / 1e-5; "miller" = line/plane Miller input in 8 cell classes (hostile fixed pairs such '
+        'as tetragonal (101)/[010], orthorhombic (110)/[001], hexagonal (10-11)/[-12-10] first, then random zone-law pairs with |index| <= 3; '
+        '3-index and Miller-Bravais 4-index) for both solvers, Burgers vector in lattice coordinates.  Each solution is probed at 40 off-line '
+        'points (hostile polar angles incl. the axes and 0.03 rad from the cut, radii over 4 decades, any position along the line), at 20 radii '
+        'on the cut, on its continuation and on 5 other rays, on a 256-point circuit, and (Miller) at 12 points built from in-plane lattice vectors. '
+        'A case is non-trivial when the solver returned a solution and all field monitors were evaluated on it; '
+        'distinct = distinct fingerprint of (stiffness, Burgers vector, transform or cell+indices, m, n).')
 ASSUMPTIONS = [
     'Stroh inputs are kept away from sextic-root degeneracy: distinct upper-half-plane roots of the oracle\'s own sextic '
     'differ by >= 0.05 and have imaginary part >= 0.08 (resampled otherwise; the near-isotropic limit family is exempt and '
